@@ -82,13 +82,54 @@ def family(name, n):
         return [int_octets(1 << 16, 5, 0x20) + b'\x40\x01a\x00' * 2048], (b'\x40\x01a\x00' + int_octets(1062, 7, 0x80) + int_octets(2040, 7, 0x80)) * n, {'limit': big, 'allowed': 1 << 16}
     if name == 'huffman-literals':
         return [], b'\x40\x81\x1f\x81\x1f' * n, {'limit': big}
+    # the same integer runs once the application has set its permitted table size to 0 / 1 (HTTP/2: SETTINGS_HEADER_TABLE_SIZE=0)
+    if name == 'update-run-allowed0':
+        return [], b'\x3f' + b'\xff' * n + b'\x01', {'allowed': 0}
+    if name == 'update-run-zero-allowed0':
+        return [], b'\x3f' + b'\x80' * n + b'\x01', {'allowed': 0}
+    if name == 'update-run-allowed1':
+        return [], b'\x3f' + b'\xff' * n + b'\x01', {'allowed': 1}
+    if name == 'index-run-table-off':
+        return [b'\x20'], b'\xff' + b'\xff' * n + b'\x01', {'allowed': 0}
+    # string CONTENT (anything that inspects a name or value: searches, strips, splits, pattern matches): long inner runs
+    # of one octet class followed by something else, and many short tokens
+    if name in CONTENT:
+        body = CONTENT[name](n)
+        return [], b'\x00\x01a' + int_octets(len(body), 7) + body, {'limit': big}
+    if name.startswith('huffman-') and name[8:] in CONTENT:
+        e = huff_encode(CONTENT[name[8:]](n))
+        return [], b'\x40\x01a' + int_octets(len(e), 7, 0x80) + e, {'limit': big}
+    if name.startswith('name-') and name[5:] in CONTENT:
+        body = CONTENT[name[5:]](n)
+        return [], b'\x10' + int_octets(len(body), 7) + body + b'\x01v', {'limit': big}
+    if name.startswith('text-'):          # the same family decoded in text mode (raw=False, the default)
+        a, b, kw = family(name[5:], n)
+        return a, b, dict(kw, raw=False)
     raise SystemExit('unknown family ' + name)
 
+
+CONTENT = {
+    'value-inner-blanks': lambda n: b'a' + b' ' * n + b'b',
+    'value-inner-tabs': lambda n: b'a' + b' \t' * (n // 2) + b'b',
+    'value-leading-blanks': lambda n: b' ' * n + b'b',
+    'value-tokens': lambda n: b'a, ' * (n // 3) + b'b',
+    'value-inner-nuls': lambda n: b'a' + b'\x00' * n + b'b',
+    'value-inner-digits': lambda n: b'a' + b'0' * n + b'b',
+    'value-inner-upper': lambda n: b'a' + b'A' * n + b'b',
+    'value-crlf': lambda n: b'a' + b'\r\n' * (n // 2) + b'b',
+    'value-nonascii': lambda n: b'a' + '\u00e9\u20ac'.encode() * (n // 5) + b'b',
+    'value-colons': lambda n: b':' * n + b'b',
+}
 
 FAMILIES = ['index-run', 'index-run-zero', 'namelen-run', 'valuelen-run', 'update-run', 'litname-index-run', 'plain-string',
             'huffman-string', 'indexed-fields', 'dyn-indexed-fields', 'inserted-literals', 'plain-literals', 'never-literals-idxname',
             'size-updates', 'size-updates-2', 'evicting-literals', 'huffman-literals', 'high-index-fields', 'high-index-literals',
-            'huffman-ff-refused', 'huffman-good-then-ff', 'table64k-inserted-literals', 'table64k-inserted-and-referenced']
+            'huffman-ff-refused', 'huffman-good-then-ff', 'table64k-inserted-literals', 'table64k-inserted-and-referenced',
+            'update-run-allowed0', 'update-run-zero-allowed0', 'update-run-allowed1', 'index-run-table-off',
+            'value-inner-blanks', 'value-inner-tabs', 'value-leading-blanks', 'value-tokens', 'value-inner-nuls', 'value-inner-digits',
+            'value-inner-upper', 'value-crlf', 'value-colons', 'huffman-value-inner-blanks', 'name-value-inner-blanks', 'name-value-inner-upper',
+            'text-value-inner-blanks', 'text-value-nonascii', 'text-value-tokens', 'text-plain-literals', 'text-indexed-fields', 'text-huffman-literals',
+            'text-name-value-inner-upper']
 
 
 def main():
@@ -135,7 +176,7 @@ def main():
             d = fresh()
             t = _utime()          # user CPU only: page-fault (system) time depends on the machine's memory pressure
             try:
-                r = d.decode(block, raw=True); res = 'ok %d' % len(r)
+                r = d.decode(block, raw=kw.get('raw', True)); res = 'ok %d' % len(r)
             except HPACKDecodingError as e:
                 res = 'err ' + type(e).__name__
             except Exception as e:
@@ -175,7 +216,7 @@ def main():
         sys.settrace(tracer)
         try:
             try:
-                r = d.decode(block, raw=True); res = 'ok %d' % len(r)
+                r = d.decode(block, raw=kw.get('raw', True)); res = 'ok %d' % len(r)
             except HPACKDecodingError as e:
                 res = 'err ' + type(e).__name__
             except Exception as e:
